@@ -272,6 +272,8 @@ def update_at_index_obs(pid, nm, P, mode="full"):
     for si, st in enumerate(P.sites[:2]):
         nv = (st.example[0] + 0.5) if st.example.dtype == jnp.float32 else st.example[0]
         for chg in (False, True):
+            if chg and any(k in P.name for k in ("switch", "or_else", "mix", "composed", "ssw")):
+                continue  # a switch index tagged UnknownChange is a documented resampling trigger: the reference (no resampling) does not apply
             def f_iu(key, args, vals, i, newv, args2, si=si, st=st, chg=chg):
                 tr, _ = P.gf.importance(key, P.chm(vals), args)
                 ad = Diff.unknown_change(args2) if chg else Diff.no_change(args)
